@@ -576,6 +576,7 @@ class RemoteBitrateEstimator:
             )
             if target_bitrate is not None:
                 self.last_update_ms = arrival_time_ms
-                return target_bitrate, list(self.ssrcs.keys())
+                # a REMB lists at most 255 SSRCs, report the latest ones
+                return target_bitrate, list(self.ssrcs.keys())[-255:]
 
         return None
